@@ -174,3 +174,36 @@ func VH_C13_LeastBytesFirst(N int) {
 	vhAssert(len(lb.counters) == N, "leastbytes-first-counters")
 	vhReach("leastbytes-first")
 }
+
+// vhConstHasher is a user-supplied hash.Hash32 whose sum is an arbitrary 32-bit value: it separates the
+// partition arithmetic (sign handling, modulo) from the hash function, so the arithmetic is checked for every
+// hash value - including the ones whose keys are hard to find, such as 0x80000000.
+type vhConstHasher struct{ sum uint32 }
+
+func (h *vhConstHasher) Write(p []byte) (int, error) { return len(p), nil }
+func (h *vhConstHasher) Sum(b []byte) []byte         { return b }
+func (h *vhConstHasher) Reset()                      {}
+func (h *vhConstHasher) Size() int                   { return 4 }
+func (h *vhConstHasher) BlockSize() int              { return 1 }
+func (h *vhConstHasher) Sum32() uint32               { return h.sum }
+
+func VH_C13_HashArithmetic(which int) {
+	sum := vhUint32("hash")
+	parts := vhIota("partitions", 1, math.MaxInt32)
+	n := len(parts)
+	key := []byte{1}
+	if which == 0 {
+		got := (&Hash{Hasher: &vhConstHasher{sum}}).Balance(Message{Key: key}, parts...)
+		vhAssert(vhAll(got >= 0, got < n), "hash-arithmetic-offered-partition")
+		want := int32(sum) % int32(n)
+		if want < 0 {
+			want = -want
+		}
+		vhAssert(got == int(want), "hash-arithmetic-matches-sarama")
+	} else {
+		got := (&ReferenceHash{Hasher: &vhConstHasher{sum}}).Balance(Message{Key: key}, parts...)
+		vhAssert(vhAll(got >= 0, got < n), "refhash-arithmetic-offered-partition")
+		vhAssert(got == int((int32(sum)&0x7fffffff)%int32(n)), "refhash-arithmetic-matches-sarama")
+	}
+	vhReach("hash-arithmetic")
+}
